@@ -504,11 +504,20 @@ class StartStopSuite(SystemSuite):
         self.which = which
 
     def make(self, rng, *, stage, n, start_index, udi, sar, placements, nrows, custom=None, method="x1x1x1,2",
-             stray_go=False, relook_row=None, relook_mid=None):
+             stray_go=False, relook_row=None, relook_mid=None, settings=None):
         dur = Fraction(1, 8)
         look_to = Fraction(131, 1000)
         sch = Schedule(look_to, dur)
         evs = [ev(0, "global", [True] * n), ev(look_to, "call", "Look to")]
+        if settings is not None:
+            # server mode (Wheatley rings the bells of the user called "Wheatley"; settings arrive over the socket)
+            evs.append(ev(Fraction(11, 1000), "user_entered", 1, "Wheatley"))
+            for b in range(1, n + 1):
+                evs.append(ev(Fraction(12, 1000) + Fraction(b, 100000), "assign", b, 1))
+            for (row, place, in_pause, payload) in settings:
+                j = row * n + place
+                t = sch.pause(j, Fraction(rng.randint(20, 80), 101)) if in_pause else sch.wait(j, Fraction(rng.randint(5, 95), 101))
+                evs.append(ev(t, "setting", payload))
         if stray_go:       # a Go nobody should remember: delivered while Wheatley is idle
             evs.append(ev(Fraction(57, 1000), "call", "Go"))
         if relook_row is not None:   # a fresh Look to right after a whole pull has been completed
@@ -524,7 +533,8 @@ class StartStopSuite(SystemSuite):
         calls = [(r, c) for (_t, r, c) in sorted(calls)]      # delivery order
         spec = {"kind": "pn", "stage": stage, "method": method, "bob": None, "single": None,
                 "start_index": start_index, "custom": custom}
-        return {"gen": spec, "udi": udi, "stop_at_rounds": sar, "call_comps": True, "name": None, "instance": None,
+        return {"gen": spec, "udi": udi, "stop_at_rounds": sar, "call_comps": True,
+                "name": None if settings is None else "Wheatley", "instance": None if settings is None else 7,
                 "rhythm": {"kind": "scripted", "durs": [fstr(dur)] * (nrows * n + 8)}, "delta": "0",
                 "horizon": fstr(sch.end_of(nrows * n) + Fraction(1, 3000)), "events": sorted_events(evs),
                 "oracle": {"calls": calls, "nrows": nrows, "n": n, "relook_row": relook_row, "relook_mid": relook_mid,
@@ -593,6 +603,24 @@ class StartStopSuite(SystemSuite):
                         pl = [] if udi else [(g, rng.randrange(n), False, "Go")]
                         yield self.make(rng, stage=stage, n=n, start_index=si, udi=udi, sar=True, placements=pl,
                                         nrows=22, method="3.1.5")
+        # server mode: the settings panel re-sends the settings IN FORCE (stop-at-rounds as it already is, the speed as it
+        # already is) somewhere after a stop call and before the stroke at which that call takes effect: it changes nothing
+        for (stage, n) in ((4, 4), (6, 6), (5, 8)):
+            method = "x1x1,2" if stage % 2 == 0 else "3.1"
+            for si in (0, 1):
+                for sar in (False, True):
+                    for _k in range(3 if tier == "quick" else 12):
+                        g = rng.randint(0, 2)
+                        t = rng.randint(g + 2, 8)
+                        call = rng.choice(["Stand next", "Stand next", "That's all"])
+                        p_call = rng.randrange(n - 1)
+                        same_row = rng.random() < 0.5
+                        payload = rng.choice([[["stop_at_rounds", sar]], [["stop_at_rounds", "true" if sar else "false"]],
+                                              [["peal_speed", 180], ["stop_at_rounds", sar], ["use_up_down_in", False]]])
+                        st = [(t, rng.randint(p_call + 1, n - 1), False, payload)] if same_row else \
+                             [(t + 1, rng.randrange(n), rng.random() < 0.3, payload)]
+                        yield self.make(rng, stage=stage, n=n, start_index=si, udi=False, sar=sar, nrows=nrows, method=method,
+                                        placements=[(g, rng.randrange(n), False, "Go"), (t, p_call, False, call)], settings=st)
         # the touch COMES ROUND (plain hunt on four: eight changes), That's all is called in the row before rounds or in
         # the rounds row itself, and a second Go is called in the closing rounds: the method starts again
         for n in (4, 5):
@@ -851,6 +879,8 @@ class SecondTouchSuite(StartStopSuite):
     def oracle_C06(self, case, out):
         if case["gen"]["method"] not in ("x1x1,2", "3.1", "3.1.5"):
             return None if case["gen"].get("custom") is None else self._check_custom_go(case, out)
+        if any(c in ("Bob", "Single") for (_r, c) in case["oracle"]["calls"]) or case["gen"].get("bob") or case["gen"].get("single"):
+            return None       # (the row-level reading of C06 knows the plain course only; these are judged under C05)
         return StartStopSuite.oracle_C06(self, case, out)
 
     def _check_custom_go(self, case, out):
